@@ -642,8 +642,9 @@ def run():
             if e["e"] == "fork" and e["h"] and not done["fork"] and all(f == 1 for ch_ in e["h"] for _t, f in ch_):
                 e["h"] = [[[t, 0] if j == 0 else [t, f] for j, (t, f) in enumerate(ch_)] for ch_ in e["h"]]
                 done["fork"] = i + 1
-            elif e["e"] == "acc" and e["s"] and e["l"] and e["w"] and not done["acc"] and done["fork"]:
-                others = [x for x in cor if x["run"] == e["run"] and x["e"] == "acc" and x["t"] == e["t"] and x["g"] != e["g"]]
+            elif e["e"] == "acc" and e["s"] and e["l"] and e["f"] == "Set" and not done["acc"] and done["fork"]:
+                others = [x for x in cor if x["run"] == e["run"] and x["e"] == "acc" and x["t"] == e["t"] and x["g"] != e["g"]
+                          and x["f"] in ("Get", "Set")]
                 if others:
                     e["l"] = False
                     done["acc"] = i + 1
